@@ -4,6 +4,7 @@ import asyncio
 import datetime
 import itertools
 import logging
+import time
 import types
 
 from harness.common import listlit
@@ -38,7 +39,8 @@ def lifecycle_scenarios(n_producers, dispatchers=("backtesting", "realtime"), fu
                     out.append({"dispatcher": disp, "producers": [list(p) for p in ps], "exit": x, "inflight": inflight,
                                 "mc": 4,
                                 # every third scenario: user code wraps the log record factory during the run
-                                "wrap_factory": disp == "backtesting" and len(out) % 3 == 1})
+                                "wrap_factory": disp == "backtesting" and len(out) % 3 == 1,
+                                "user_converter": len(out) % 4 == 2})
     return out
 
 
@@ -58,6 +60,7 @@ async def _run_lifecycle(sc):
 
         async def initialize(self):
             log.append(("I", self.pid))
+            user_log.warning("producer %d starting", self.pid)       # applications log before the first event too
             if self.beh[0] == "raise":
                 raise ProducerError("init %d" % self.pid)
 
@@ -115,9 +118,19 @@ async def _run_lifecycle(sc):
         src = core_event.FifoQueueEventSource(producer=p, events=evs)
         d.subscribe(src, handler)
     factory_before = logging.getLogRecordFactory()
+    # logging stays ON during the run (every record is created and formatted with its time), into a sink
+    sink = _Sink()
     lg = logging.getLogger("basana")
-    old_level = lg.level
-    lg.setLevel(logging.CRITICAL + 1)
+    saved = [(l, l.level, l.propagate, list(l.handlers)) for l in (lg, user_log)]
+    for l in (lg, user_log):
+        l.setLevel(logging.DEBUG)
+        l.propagate = False
+        l.handlers = [sink]
+    # an application-wide time converter installed the documented way (a plain function needs staticmethod)
+    converter_before = logging.Formatter.__dict__.get("converter")
+    if sc.get("user_converter"):
+        logging.Formatter.converter = staticmethod(_user_converter)
+    converter_installed = logging.Formatter.__dict__.get("converter")
     outcome = None
     detail = ""
     if x == "stop2":
@@ -148,17 +161,59 @@ async def _run_lifecycle(sc):
         outcome = "Internal"
         detail = repr(e)
     finally:
-        lg.setLevel(old_level)
-    # logging afterwards
+        for l, lvl, prop, hs in saved:
+            l.setLevel(lvl)
+            l.propagate = prop
+            l.handlers = hs
+    # logging afterwards: the record factory and the time converter are the ones installed before the run, a record can
+    # be created and formatted with its time, and that time is the wall clock again
     logging_ok = logging.getLogRecordFactory() is factory_before
+    if logging.Formatter.__dict__.get("converter") is not converter_installed:
+        logging_ok = False
+        detail += " logging: Formatter.converter is not the object installed before the run"
     try:
         rec = logging.getLogRecordFactory()("x", logging.INFO, __file__, 1, "hello", (), None)
         assert rec is not None
+        text = logging.Formatter("%(asctime)s %(message)s").format(rec)
+        assert "hello" in text
+        if abs(rec.created - time.time()) > 60:
+            logging_ok = False
+            detail += " logging: a record created after the run is dated %r" % rec.created
     except Exception as e:
         logging_ok = False
         detail += " logging: " + repr(e)
+    if sink.errors:
+        logging_ok = False
+        detail += " logging failed during the run: " + sink.errors[0]
     logging.setLogRecordFactory(factory_before)
+    if converter_before is None:
+        if "converter" in logging.Formatter.__dict__:
+            del logging.Formatter.converter
+    else:
+        logging.Formatter.converter = converter_before
     return log, outcome, logging_ok, detail
+
+
+user_log = logging.getLogger("harness.user.strategy")
+
+
+def _user_converter(secs):
+    return time.gmtime(secs)
+
+
+class _Sink(logging.Handler):
+    """formats every record with its time and drops it; remembers formatting failures"""
+
+    def __init__(self):
+        super().__init__(logging.DEBUG)
+        self.errors = []
+        self.setFormatter(logging.Formatter("%(asctime)s %(name)s %(message)s"))
+
+    def emit(self, record):
+        try:
+            self.format(record)
+        except Exception as e:      # noqa
+            self.errors.append(repr(e))
 
 
 def run_lifecycle(sc):
